@@ -690,11 +690,11 @@ namespace Dune
   {
     if(tail_ == &beforeHead_) {
       // list was empty
-      beforeHead_.next_ = tail_ = allocator_.allocate(1, 0);
+      beforeHead_.next_ = tail_ = allocator_.allocate(1);
       ::new(static_cast<void*>(&beforeHead_.next_->item_))T(item);
       beforeHead_.next_->next_=0;
     }else{
-      Element* added = allocator_.allocate(1, 0);
+      Element* added = allocator_.allocate(1);
       ::new(static_cast<void*>(&added->item_))T(item);
       added->next_=beforeHead_.next_;
       beforeHead_.next_=added;
